@@ -504,3 +504,54 @@ class TokList:
         return 'TokList(%s)' % ','.join(
             ('1' if isinstance(s, Single) else 'M[%s]' % s.ln)
             for s in self.segs)
+
+
+def fit(what, thunk):
+    """evaluate a contract clause; a clause that trips over the shape of the
+    code (a variable that no longer exists, a value of another type) does
+    not fit the code: undecided, neither a crash nor a violation"""
+    try:
+        return thunk()
+    except (Unsupported, EngineError):
+        raise
+    except (KeyError, AttributeError, TypeError, IndexError) as e:
+        raise Unsupported('contract clause %s does not fit the code (%s: %s)'
+                          % (what, type(e).__name__, str(e)[:100]))
+
+
+def const_names(v, _seen=None):
+    """names of the uninterpreted constants a value is built from"""
+    out = set()
+    if isinstance(v, SSeq):
+        out |= const_names(v.arr)
+        out |= const_names(v.ln)
+        return out
+    if isinstance(v, (tuple, list)):
+        for x in v:
+            out |= const_names(x)
+        return out
+    if isinstance(v, Opt):
+        return const_names(v.isnone) | const_names(v.obj)
+    if isinstance(v, Obj):
+        for x in v.fields.values():
+            if not isinstance(x, (Obj, TokList)):
+                out |= const_names(x)
+        return out
+    if not isinstance(v, z3.ExprRef):
+        return out
+    seen = set()
+    todo = [v]
+    while todo:
+        e = todo.pop()
+        k = e.get_id()
+        if k in seen:
+            continue
+        seen.add(k)
+        if z3.is_app(e):
+            if e.num_args() == 0 and \
+                    e.decl().kind() == z3.Z3_OP_UNINTERPRETED:
+                out.add(e.decl().name())
+            todo.extend(e.children())
+        elif z3.is_quantifier(e):
+            todo.append(e.body())
+    return out
